@@ -284,6 +284,9 @@ func execConnect(in val.V) val.V {
 			}
 		}
 		conn := client.NewConnection(req)
+		if cfg.At(5).Truth() {
+			cancel() // the context is done before Connect is called
+		}
 		conn.SubscribeToAll(func(e sse.Event) {
 			run.items = append(run.items, val.L(val.N(1), val.S(e.LastEventID), val.S(e.Type), val.S(e.Data)))
 		})
@@ -485,7 +488,11 @@ func genConnect(c *Ctx) {
 		c.Count(fmt.Sprintf("body-kind:%d", bk.At(0).Num()))
 		c.Count(fmt.Sprintf("max-retries:%d", maxR))
 		c.Count(fmt.Sprintf("steps:%d", nsteps))
-		c.Emit(val.L(val.L(bo, bk, val.Bool(onRetry), hdr, patience), val.List(steps)))
+		before := r.Chance(1, 25)
+		if before {
+			c.Count("cancelled-before-connect")
+		}
+		c.Emit(val.L(val.L(bo, bk, val.Bool(onRetry), hdr, patience, val.Bool(before)), val.List(steps)))
 	}
 	// endings after every byte position of short streams, clean and erroneous and cancelled (C11)
 	shorts := []string{"data: a\n\nid: 1\n\n", "id: 5\ndata: x\r\n\r\n: c\n", "\xef\xbb\xbfretry: 1\n\ndata: y\n\n", "data: a\n\n\n", "\n", "id: 3\revent: t\r\r"}
